@@ -2003,6 +2003,19 @@ def static_items(family, b):
 
         yield ("generic_result", "generic_result", "holding plain values and cogent3 objects", generic, observe_result, True)
 
+        def generic_after_refusal():
+            # the history of the object contains assignments that were refused (values that cannot be serialised): a new
+            # key, and a replacement of an existing one; the caller handled the TypeError
+            r = generic()
+            for key, bad in (("bad", {0, 23}), ("number", {"nested": {1, 2}})):
+                try:
+                    r[key] = bad
+                except TypeError:
+                    pass
+            return r
+
+        yield ("generic_result:refused", "generic_result", "after assignments that were refused", generic_after_refusal, observe_result, True)
+
         def boot():
             null = get_app("model", "F81", tree=TREE3, opt_args=OPT, show_progress=False)
             alt = get_app("model", "HKY85", tree=TREE3, opt_args=OPT, show_progress=False)
@@ -2038,8 +2051,11 @@ def check_lazy_result(acc, what, cls, build, observer, case):
 
     with warnings.catch_warnings():
         warnings.simplefilter("ignore")
-        text = build().to_json()
-        eager = observer(deserialise_object(text), "json")  # the same text read into an object that is used on its own
+        try:
+            text = build().to_json()
+            eager = observer(deserialise_object(text), "json")  # the same text read into an object that is used on its own
+        except Exception:  # noqa: BLE001 - the plain json round trip of this object fails: reported by check_roundtrips
+            return
         for ch, fn in (("rich dict", lambda o: deserialise_object(o.to_rich_dict())), ("json", lambda o: deserialise_object(o.to_json())),
                        ("deepcopy", copy.deepcopy), ("pickle", lambda o: pickle.loads(pickle.dumps(o)))):
             for first in ("copy", "original"):
